@@ -112,3 +112,59 @@ func VerifC18_RolloutTerminating() {
 		verifrt.Assert(recheck != nil, "C07.rollout.terminatingPendingRequeues")
 	}
 }
+
+// VerifC18_RemoveBatchReleaseWaits: the "release workload control" clean-up task reports completion only when the
+// BatchRelease is really gone (a BatchRelease that still exists — even terminating — keeps the task pending).
+func VerifC18_RemoveBatchReleaseWaits() {
+	vSimple = true
+	r := vCanaryRollout(1, 1)
+	c := vContext(r)
+	cli := &symclient.Client{Faults: true}
+	exists := verifrt.Bool("br.exists")
+	if exists {
+		br := &v1beta1.BatchRelease{ObjectMeta: metav1.ObjectMeta{Namespace: "ns", Name: "ro"}}
+		if verifrt.Bool("br.terminating") {
+			now := metav1.Now()
+			br.DeletionTimestamp = &now
+			br.Finalizers = []string{"rollouts.kruise.io/batch-release-finalizer"}
+		}
+		cli.Objects = []client.Object{br}
+	}
+	retry, err := removeBatchRelease(cli, c)
+	if !retry && err == nil {
+		verifrt.Cover("done")
+		verifrt.Assert(!exists, "C18.rollout.batchReleaseRemovalDoneOnlyWhenGone")
+	}
+	if exists && err == nil {
+		verifrt.Assert(retry, "C18.rollout.existingBatchReleaseKeepsTaskPending")
+	}
+}
+
+// VerifC18_FinalizingBatchReleaseWaits: the "resume workload" task reports completion only when there is no
+// BatchRelease or it has released the workload (batchPartition nil and phase Completed).
+func VerifC18_FinalizingBatchReleaseWaits() {
+	vSimple = true
+	r := vCanaryRollout(1, 1)
+	c := vContext(r)
+	c.WaitReady = verifrt.Bool("waitReady")
+	cli := &symclient.Client{Faults: true}
+	exists := verifrt.Bool("br.exists")
+	br := &v1beta1.BatchRelease{ObjectMeta: metav1.ObjectMeta{Namespace: "ns", Name: "ro"}}
+	if verifrt.Bool("br.hasPartition") {
+		p := int32(0)
+		br.Spec.ReleasePlan.BatchPartition = &p
+	}
+	phases := []v1beta1.RolloutPhase{v1beta1.RolloutPhaseProgressing, v1beta1.RolloutPhaseFinalizing, v1beta1.RolloutPhaseCompleted}
+	br.Status.Phase = phases[verifrt.IntRange("br.phase", 0, 2)]
+	if verifrt.Bool("br.waitResume") {
+		br.Spec.ReleasePlan.FinalizingPolicy = v1beta1.WaitResumeFinalizingPolicyType
+	}
+	if exists {
+		cli.Objects = []client.Object{br}
+	}
+	retry, err := finalizingBatchRelease(cli, c)
+	if !retry && err == nil {
+		verifrt.Cover("done")
+		verifrt.Assert(!exists || (br.Spec.ReleasePlan.BatchPartition == nil && br.Status.Phase == v1beta1.RolloutPhaseCompleted), "C18.rollout.resumeDoneOnlyWhenBatchReleaseCompleted")
+	}
+}
